@@ -11,7 +11,6 @@ Proof. induction h as [|x h IH]; intros [|i] f; cbn; auto. Qed.
 Lemma nd_upd_ne : forall h i j f, i <> j -> nd (upd h i f) j = nd h j.
 Proof.
   unfold nd. induction h as [|x h IH]; intros [|i] [|j] f H; cbn; auto; try congruence.
-  apply IH. congruence.
 Qed.
 
 Lemma nd_upd_eq : forall h i f, i < length h -> nd (upd h i f) i = f (nd h i).
